@@ -139,6 +139,12 @@ def _work(args):
         res = Result()
         stack = list(items)
         n = 0
+        if memo and _TABLE[0] is not None:
+            # one table serves every exploration of a check: the scenario's
+            # identity is part of every state key
+            _TABLE[0].salt = h64((getattr(factory, '__module__', ''),
+                                  getattr(factory, '__name__', ''),
+                                  repr(params)))
         while stack and n < BATCH:
             pre, u, par = stack.pop()
             x = scenario(pre, par, _TABLE[0] if memo else None, bound)
@@ -204,8 +210,9 @@ class Explorer(object):
 
     def bound(self, ctx, factory, params, bound, max_execs, fresh=True):
         """One complete exploration at one preemption bound."""
-        if self.table is not None and fresh:
-            self.table.clear()
+        # The table is never cleared: keys carry the scenario's identity, and
+        # entries record the preemption budget that was left, so a state met
+        # again under a larger bound is expanded again.
         res = Result()
         pending = [([], 0, None)]
         inflight = 0
